@@ -292,9 +292,9 @@ def canon_result(r):
     return repr(r)
 
 
-def load_and_run(src, wd):
+def load_and_run(src, wd, extra_libs=()):
     try:
-        p = Program.from_source(src, working_dir=wd)
+        p = Program.from_source(src, libraries=tuple(EEMS_CSV_LIBRARIES) + tuple(extra_libs), working_dir=wd)
     except Exception as ex:
         return {"load_error": type(ex).__name__ + ": " + str(ex).splitlines()[0][:200] if str(ex) else type(ex).__name__}
     st = {"structure": canon_prog(p)}
@@ -314,8 +314,11 @@ def model_oracle(rnd, n, wd):
         g = Gen(rnd, None)
         g.build(rnd.randint(1, 3), rnd.randint(1, 7))
         v2, v3 = g.render()
-        a = load_and_run(v2, wd)
-        b = load_and_run(v3, wd)
+        # half of the models are loaded next to a project library whose commands are NAMED like EEMS 2.0 commands
+        xl = ("verif_cmds.shadow",) if rnd.random() < 0.5 else ()
+        stats["with_a_shadowing_library"] = stats.get("with_a_shadowing_library", 0) + int(bool(xl))
+        a = load_and_run(v2, wd, xl)
+        b = load_and_run(v3, wd, xl)
         stats["models"] += 1
         stats["commands"] += len(g.cmds)
         for c in g.cmds:
